@@ -14,8 +14,8 @@ CFGS = {
     "t_2dff": ((8, 8), (0, 0), (4, 4), (0, 0), "{36, 41, 50, 64, 81}", 1, 0, 1),
     "t_2da": ((10, 7), (1, 1), (4, 8), (0, 1), "{144, 150, 169, 200}", 1, 8, 2),
     "t_2d2": ((8, 9), (1, 1), (4, 4), (0, 0), "{36, 41}", 2, 0, 4),
-    "t_3d": ((6, 6, 7), (1, 1, 1), (4, 4, 4), (0, 0, 1), "{36, 41, 50, 59}", 1, 4, 2),
-    "t_3dm": ((6, 7, 6), (1, 0, 1), (4, 4, 4), (0, -3, 0), "{36, 41, 50}", 1, 4, 2),
+    "t_3d": ((6, 6, 7), (1, 1, 1), (4, 4, 4), (0, 0, 1), "{36, 41, 50, 59}", 1, 4, 4),
+    "t_3dm": ((6, 7, 6), (1, 0, 1), (4, 4, 4), (0, -3, 0), "{36, 41, 50}", 1, 4, 4),
 }
 B = lambda x: "TRUE" if x else "FALSE"
 for name, (shape, per, dx, org, r2s, nd, margin, step) in CFGS.items():
